@@ -216,30 +216,30 @@ def parts(tier):
                {"kinds": "KINDS_NEST", "samples": 1, "keys": ["a", "b"], "merge": ["default", "p50n2"]},
                shards=16, timeout=170, path_timeout=30, mode="CH-P+CH-E"),
         ]
+    T = dict(shards=16, timeout=400, path_timeout=30)
     return [
         CH("pairs_inference_options", "vflib.props.c01:scen_accept",
            {"kinds": "KINDS_FULL", "samples": 2, "keys": ["a"], "merge": ["default", "exact", "p50n2"], "registries": ["default", "none"],
-            "dkf": True, "dkr": True, "frameworks": ["pydantic", "dataclasses"], "layouts": ["flat"]},
-           shards=16, timeout=900, path_timeout=30, mode="CH-P+CH-E"),
+            "dkf": True, "dkr": True, "frameworks": ["pydantic"], "layouts": ["flat"]}, mode="CH-P+CH-E", **T),
         CH("pairs_emission_options", "vflib.props.c01:scen_accept",
-           {"kinds": "KINDS_FULL", "samples": 2, "keys": ["a"], "max_literals": [10, 0, 1], "converters": True},
-           shards=16, timeout=900, path_timeout=30, mode="CH-P+CH-E"),
-        CH("triples", "vflib.props.c01:scen_accept", {"kinds": "KINDS_FULL", "samples": 3, "keys": ["a"], "frameworks": ["pydantic", "attrs"]},
-           shards=16, timeout=900, path_timeout=30, mode="CH-P+CH-E"),
-        CH("two_keys", "vflib.props.c01:scen_accept", {"kinds": "KINDS_SMALL", "samples": 2, "keys": ["a", "b"], "frameworks": ["pydantic", "dataclasses", "base"]},
-           shards=16, timeout=900, path_timeout=30, mode="CH-P+CH-E"),
+           {"kinds": "KINDS_FULL", "samples": 2, "keys": ["a"], "max_literals": [10, 0, 1], "converters": True}, mode="CH-P+CH-E", **T),
+        CH("triples", "vflib.props.c01:scen_accept", {"kinds": "KINDS_FULL", "samples": 3, "keys": ["a"], "frameworks": ["pydantic", "attrs"], "layouts": ["flat"]},
+           mode="CH-P+CH-E", **T),
+        CH("two_keys", "vflib.props.c01:scen_accept", {"kinds": "KINDS_SMALL", "samples": 2, "keys": ["a", "b"], "frameworks": ["pydantic", "dataclasses"], "layouts": ["flat"]},
+           mode="CH-P+CH-E", **T),
         CH("three_nested_fields", "vflib.props.c01:scen_accept",
-           {"kinds": "KINDS_NEST", "samples": 1, "keys": ["a", "b", "c"], "merge": ["default", "p50n2"]},
-           shards=16, timeout=900, path_timeout=30, mode="CH-P+CH-E"),
+           {"kinds": "KINDS_NEST", "samples": 1, "keys": ["a", "b", "c"], "merge": ["default", "p50n2"], "frameworks": ["pydantic", "dataclasses"]}, mode="CH-P+CH-E", **T),
         CH("grammar_depth1_pairs", "vflib.props.c01:scen_accept",
-           {"kinds": "GRAMMAR1", "samples": 2, "keys": ["a"], "frameworks": ["pydantic", "attrs"], "layouts": ["flat"], "symbolic_leaves": False},
-           shards=16, timeout=900, path_timeout=30, mode="CH-E"),
+           {"kinds": "GRAMMAR1", "samples": 2, "keys": ["a"], "frameworks": ["pydantic"], "layouts": ["flat"], "symbolic_leaves": False}, mode="CH-E", **T),
         CH("grammar_depth2_pairs", "vflib.props.c01:scen_accept",
-           {"kinds": "GRAMMAR2", "samples": 2, "keys": ["a"], "frameworks": ["pydantic"], "layouts": ["flat"], "symbolic_leaves": False},
-           shards=16, timeout=900, path_timeout=30, mode="CH-E"),
+           {"kinds": "GRAMMAR2", "samples": 2, "keys": ["a"], "frameworks": ["pydantic"], "layouts": ["flat"], "symbolic_leaves": False}, mode="CH-E", **T),
+        CH("empty_samples", "vflib.props.c01:scen_accept",
+           {"kinds": "KINDS_FULL", "samples": 2, "keys": ["a"], "optional_fix": True, "frameworks": ["pydantic", "dataclasses"], "layouts": ["flat"]}, mode="CH-P+CH-E", **T),
+        CH("padded_pseudo_type_strings", "vflib.props.c01:scen_accept",
+           {"kinds": "KINDS_PAD", "samples": 3, "keys": ["a"], "frameworks": ["pydantic", "sqlmodel", "attrs"], "layouts": ["flat"], "symbolic_leaves": False}, mode="CH-E", **T),
         CH("datetime", "vflib.props.c01:scen_accept",
            {"kinds": "KINDS_DATE", "samples": 3, "keys": ["a"], "registries": ["datetime"], "frameworks": ["pydantic", "dataclasses", "attrs", "sqlmodel"]},
-           shards=12, timeout=900, path_timeout=30, mode="CH-E"),
+           shards=12, timeout=400, path_timeout=30, mode="CH-E"),
     ]
 
 
